@@ -84,15 +84,20 @@ def build_layout(ck: str, rk: str, tk: str, names, decoy=None):
     return survey, qr, qt, (cpath, rpath + [nqr], tpath + [nqt], rkinds, tkinds, len(ck))
 
 
-def reference_answers(rpath, tpath, ncommon):
+def reference_answers(rpath, tpath, ncommon=None):
     """Independent resolver: every XPath that, evaluated from the referrer node, identifies
-    the target node: the absolute path, or '..' steps up to a common ancestor followed by the
-    child steps down to the target."""
+    the target node: the absolute path, or '..' steps up to a common ancestor (at least one
+    step, so that the path starts at an element) followed by the child steps down to the
+    target.  The referrer may be the target itself or one of its ancestors."""
     absolute = "/" + "/".join(tpath)
+    lcp = 0
+    while lcp < len(rpath) and lcp < len(tpath) and rpath[lcp] == tpath[lcp]:
+        lcp += 1
     rel = []
-    # common ancestors are the first (1 + ncommon) path segments (root + common sections)
-    for depth in range(1, ncommon + 2):
+    for depth in range(1, lcp + 1):
         ups = len(rpath) - depth
+        if ups < 1:
+            continue
         down = tpath[depth:]
         rel.append("/".join([".."] * ups + down))
     return absolute, rel
@@ -265,8 +270,11 @@ def _kinds(bits: int, n: int) -> str:
     return "".join("r" if (bits >> i) & 1 else "g" for i in range(n))
 
 
-def c03_cells(cell: int, nc: int, nr: int, nt: int, cb: int, rb: int, tb: int, x0: int) -> bool:
+def c03_cells(cell: int, nc: int, nr: int, nt: int, cb: int, rb: int, tb: int, x0: int, who: int = 0) -> bool:
     """
+    who: 0 = the cell sits on a question of the referrer chain; 1 = on the target question itself
+    (self reference); 2 = on the innermost section that encloses the target (label / relevant of a
+    group or repeat mentioning its own descendant).
     vpre: 0 <= cb < (1 << nc) and 0 <= rb < (1 << nr) and 0 <= tb < (1 << nt)
     vpre: 33 <= x0 <= 126 and x0 != 36
     vpost: _ == True
@@ -284,7 +292,13 @@ def c03_cells(cell: int, nc: int, nr: int, nt: int, cb: int, rb: int, tb: int, x
     for i, k in enumerate(tk):
         rows.append({"type": "begin " + ("repeat" if k == "r" else "group"), "name": f"t{i}", "label": "T"})
         tpath.append(f"t{i}")
-    rows.append({"type": "integer", "name": "tq", "label": S(x0, 84)})
+    tq_row = {"type": "integer", "name": "tq", "label": S(x0, 84)}
+    rows.append(tq_row)
+    sec_row = None
+    for r0 in rows:
+        if r0["type"].startswith("begin"):
+            sec_row = r0  # innermost open section = the last begin row so far
+    tsec_path = list(tpath)
     tpath.append("tq")
     for k in reversed(tk):
         rows.append({"type": "end " + ("repeat" if k == "r" else "group")})
@@ -315,6 +329,18 @@ def c03_cells(cell: int, nc: int, nr: int, nt: int, cb: int, rb: int, tb: int, x
     elif kind == "constraint_message":
         q["constraint"] = ". != 1"
         q["constraint_message"] = "m" + X + " ${tq}"
+    if who == 1:  # self reference: move the cell onto the target row
+        for kk in ("relevant", "constraint", "calculation", "required", "read_only", "hint"):
+            if kk in q:
+                tq_row[kk] = q[kk]
+        if kind == "label":
+            tq_row["label"] = q["label"]
+        q = {"type": "text", "name": "rq", "label": "RQ"}
+    elif who == 2:  # enclosing section refers to its descendant
+        for kk in ("relevant", "label"):
+            if kk in q and (kk != "label" or kind == "label"):
+                sec_row[kk] = q[kk]
+        q = {"type": "text", "name": "rq", "label": "RQ"}
     if q is not None:
         rows.append(q)
     rpath.append("rq")
@@ -325,9 +351,23 @@ def c03_cells(cell: int, nc: int, nr: int, nt: int, cb: int, rb: int, tb: int, x
     wb = {"survey": rows, "choices": [{"list_name": "l1", "name": "a", "label": "A", "f": "1"}]}
     survey, _w, _js = build_survey(wb, prefill=False)
     root = survey.xml()
-    absolute, rel = reference_answers(rpath, tpath, nc)
+    if who == 1:
+        rpath = list(tpath)
+    elif who == 2:
+        rpath = list(tsec_path)
+    absolute, rel = reference_answers(rpath, tpath)
     tkinds = list(ck) + list(tk)
-    need_rel = must_be_relative(tkinds, nc)
+    # relative form required when the target's innermost enclosing repeat also encloses the referrer
+    inner = -1
+    for i, k in enumerate(tkinds):
+        if k == "r":
+            inner = i
+    if who == 0:
+        need_rel = must_be_relative(tkinds, nc)
+    elif who == 1:
+        need_rel = inner >= 0
+    else:
+        need_rel = inner >= 0 and inner < len(tkinds) - 1  # a repeat strictly above the referring section
     RQ = "/" + "/".join(rpath)
 
     def classify(tok: str, current: bool = False):
@@ -359,7 +399,7 @@ def c03_cells(cell: int, nc: int, nr: int, nt: int, cb: int, rb: int, tb: int, x
             return False
         return ok(v[: -len(" > " + X)])
     if kind in ("label", "hint"):
-        ctl = [e for e in elements(root, "input") if e.getAttribute("ref") == RQ][0]
+        ctl = [e for e in elements(root) if e.tagName in ("input", "group") and e.getAttribute("ref") == RQ][0]
         el = [c for c in child_elements(ctl) if c.tagName == kind][0]
         outs = [c for c in child_elements(el) if c.tagName == "output"]
         if len(outs) != 1 or not ok(outs[0].getAttribute("value")):
@@ -412,6 +452,47 @@ specialise(
     symbolic="group/repeat kind of every section on the common, referrer and target chains (3 symbolic ints; the solver branches over every kind assignment) and a symbolic label character on the target row; the cell holding the reference is concrete because the C lexer would realise it",
     bounds="consumer cell kind and chain lengths (common 1, referrer 0-1, target 0-1) fixed per instance; names concrete so the real _setup_xpath_dictionary and lexer run",
     weight=50,
+)
+_KB = K + ("pyxform.survey:Survey.insert_output_values", "pyxform.section:RepeatingSection.xml_control", "pyxform.section:GroupedSection.xml_control")
+specialise(
+    "C03",
+    "b.deep-chains",
+    c03_cells,
+    {"cell": [0], "who": [0], "nc": [1, 2], "nr": [0, 1, 2], "nt": [0, 1, 2]},
+    skip_if=lambda fx: fx["nc"] == 1 and fx["nr"] <= 1 and fx["nt"] <= 1,
+    reach_if=lambda fx: fx["nr"] == 0 and fx["nt"] == 0,
+    timeout=600,
+    kernel=_KB,
+    shims=("S1", "S2", "S4"),
+    symbolic="group/repeat kind of every section on the common, referrer and target chains (up to 6 symbolic bits: the solver branches over every kind assignment, e.g. repeat > repeat > repeat referring into a group of the outer repeat) and a label tracer",
+    bounds="relevant cell; chain lengths common 1-2, referrer 0-2, target 0-2 fixed per instance (nesting depth up to 6)",
+    weight=120,
+)
+specialise(
+    "C03",
+    "b.self-reference",
+    c03_cells,
+    {"cell": [0, 1, 5], "who": [1], "nc": [1], "nr": [0], "nt": [0, 1, 2]},
+    reach_if=lambda fx: fx["nt"] == 0,
+    timeout=400,
+    kernel=_KB,
+    shims=("S1", "S2", "S4"),
+    symbolic="group/repeat kind of every section above the question (symbolic bits) and a label tracer; the cell (relevant / constraint / label) sits on the very question it mentions",
+    bounds="the referrer is the target; chain lengths common 1, target 0-2 fixed per instance",
+    weight=60,
+)
+specialise(
+    "C03",
+    "b.section-refers-to-descendant",
+    c03_cells,
+    {"cell": [0, 5], "who": [2], "nc": [1], "nr": [0], "nt": [0, 1, 2]},
+    reach_if=lambda fx: fx["nt"] == 0,
+    timeout=400,
+    kernel=_KB,
+    shims=("S1", "S2", "S4"),
+    symbolic="group/repeat kind of every section (symbolic bits) and a label tracer; the cell (relevant / label) sits on the innermost group or repeat that encloses the target question",
+    bounds="the referrer is an ancestor section of the target; chain lengths common 1, target 0-2 fixed per instance",
+    weight=60,
 )
 specialise(
     "C03",
